@@ -556,9 +556,25 @@ fn scenarios(tier: &str) -> Vec<C14> {
         },
         rd: 5000,
     };
+    // a retry delay longer than the confirm timeout: after a failed series the next one starts
+    // at the retry delay, neither at the confirm timeout nor earlier
+    let long_delay = C14 {
+        inner: C03 {
+            name: "long-delay-d6-rd8000-retries0".to_string(),
+            alphabet: vec![Ev::UnsConfirm(true), Ev::EnableAll, Ev::Upd(Pt::B0), Ev::Upd(Pt::B1), Ev::Adv(TO), Ev::Adv(8000 - TO - 1), Ev::Adv(1), Ev::Other],
+            depth: 6,
+            unsol: true,
+            buf: 5,
+            cto: false,
+            retries: Some(0),
+            overflow_model: false,
+        },
+        rd: 8000,
+    };
     let mut v = vec![
         classes,
         repeat,
+        long_delay,
         mk("d5-rd5000-retries0", 5, 5000, Some(0), false),
         mk("d5-rd5000-retries1", 5, 5000, Some(1), false),
         mk("d4-rd2000-retries1", 4, 2000, Some(1), true),
